@@ -47,7 +47,8 @@ class Prop(Check):
     ]
     DRIVER = "Drivers/Obj.lean"
     QUICK_CASES = 350
-    THOROUGH_CASES = 14000
+    THOROUGH_CASES = 5000
+    PROCS_THOROUGH = 4
     RULE = ("random grammar + derived model rendered with a random layout (whitespace incl. \\r\\n and bare \\r, line / "
             "block comments, glued tokens, non-ASCII names), from string or file; plus 'mini' texts over {a,b,space,\\n,\\r}; "
             "non-trivial = >= 3 objects, text starts with whitespace or a comment, some object starts on a line > 1 at a "
